@@ -222,7 +222,7 @@ RootName(r) == r.kind \o ":" \o r.name
 StructureClauses(s, l) ==
     LET ev == s.ev[l]
         T == RootType(s.root)
-        valid == Valid(ev.j, T)
+        valid == Valid(ev.j, T) /\ (s.sk = "observed" => Closed(ev.j, T))
     IN (IF valid /\ ~ev.ok THEN {"S_ok"} ELSE {})
        \cup (IF ~valid /\ ev.ok /\ s.sk \in DevKinds THEN {"S_reject"} ELSE {})
        \cup (IF valid /\ ev.ok /\ ~WTTop(ev.p, s.root, ev.j, ev.reqcls) THEN {"S_typed"} ELSE {})
@@ -246,7 +246,7 @@ UnstructureClauses(s, l) ==
         T == RootType(s.root)
     IN IF ~ev.ok THEN {"U_raise"}
        ELSE IF l = 2 /\ prev.e = "Structure" /\ s.sk = "observed"
-            THEN (IF ~Valid(prev.j, T) THEN {}
+            THEN (IF ~(Valid(prev.j, T) /\ Closed(prev.j, T)) THEN {}
                   ELSE LET src == DropNulls(prev.j, ev.w) IN
                        IF Lossless(src, ev.w) /\ RT(src, ev.w, T) THEN {} ELSE {"U_lossless"})
        ELSE IF l = 2 /\ prev.e = "Structure"
